@@ -177,6 +177,26 @@ def enrich(prog, rng, max_in=3, max_inputs=10, max_choices=4, dstcap=3, allargs=
                     if combo not in seen:
                         seen.add(combo)
                         choices.append([{"n": p["n"], "v": x} for p, x in zip(params, combo)])
+            # corners of the argument box, and the value next to the smallest, for functions of up to three numeric
+            # arguments (a branch like `if x > y { ... continue }` needs an ORDERED pair, which all-min / all-max / all-equal
+            # never give); a single numeric argument gets every candidate
+            nnum = sum(1 for p in params if p["kind"] == "num")
+            if 1 <= nnum <= 3:
+                picks = []
+                for p, c in zip(params, cands):
+                    if p["kind"] != "num":
+                        picks.append([c[0]])
+                    elif nnum == 1:
+                        cl = list(c)
+                        picks.append(cl if len(cl) <= 8 else sorted(set(cl[:4] + cl[-2:] + rng.sample(cl[4:-2], 2))))
+                    elif nnum == 2:
+                        picks.append(sorted({c[0], c[min(1, len(c) - 1)], c[-1]}))
+                    else:
+                        picks.append(sorted({c[0], c[-1]}))
+                for combo in itertools.product(*picks):
+                    if combo not in seen and len(choices) < 11:
+                        seen.add(combo)
+                        choices.append([{"n": p["n"], "v": x} for p, x in zip(params, combo)])
             # `// wcore: allargs`: every combination of in-range values of the (small, refined) numeric parameter
             # ranges - the claimed range of an expression over refined operands is then checked against EVERY operand pair
             if allargs and nums and all(p["kind"] == "num" for p in params):
@@ -185,7 +205,7 @@ def enrich(prog, rng, max_in=3, max_inputs=10, max_choices=4, dstcap=3, allargs=
                     n = 1
                     for lo, hi in rngs:
                         n *= hi - lo + 1
-                    if n <= 700:
+                    if n <= 200:
                         for combo in itertools.product(*[range(lo, hi + 1) for lo, hi in rngs]):
                             if combo not in seen:
                                 seen.add(combo)
